@@ -14,6 +14,8 @@
 (*   ret   [end "lo"/"hi"]                                                  *)
 (*   rel   [op "leq"/"near", a, b, tol]                                     *)
 EXTENDS Integers, Sequences, TLC, TraceLib
+
+CONSTANT Strict    \* TRUE: every iteration must be a step of Bisect.tla; FALSE: only the relations between returned values (C07)
 VARIABLES tid, l
 tvars == <<tid, l>>
 T == Traces[tid]
@@ -23,12 +25,12 @@ Adv == l' = l + 1 /\ UNCHANGED tid
 \* which end must move for the search kind, given the predicate value (Bisect.tla Step)
 Moves(kind, pred) == IF kind = "low" THEN (IF pred THEN "lo" ELSE "hi") ELSE (IF pred THEN "hi" ELSE "lo")
 Iter == /\ l <= Len(T.events) /\ Ev.k = "iter"
-        /\ Ev.mid_ok                         \* mid = (lo + hi) / 2 of the previous interval
-        /\ Ev.other_kept                     \* exactly one end moves, to mid
-        /\ (Ev.near \/ Ev.branch = Moves(T.kind, Ev.pred))
+        /\ Strict => (/\ Ev.mid_ok                         \* mid = (lo + hi) / 2 of the previous interval
+                      /\ Ev.other_kept                     \* exactly one end moves, to mid
+                      /\ (Ev.near \/ Ev.branch = Moves(T.kind, Ev.pred)))
         /\ Adv
 Ret == /\ l <= Len(T.events) /\ Ev.k = "ret"
-       /\ Ev.end = (IF T.kind = "low" THEN "lo" ELSE "hi")       \* the sound end is returned
+       /\ Strict => Ev.end = (IF T.kind = "low" THEN "lo" ELSE "hi")       \* the sound end is returned
        /\ Adv
 Rel == /\ l <= Len(T.events) /\ Ev.k = "rel"
        /\ IF Ev.op = "leq" THEN Ev.a <= Ev.b + Ev.tol
